@@ -68,6 +68,15 @@ def main():
         sh("git -C /repo worktree remove --force %s" % wt)
     dst = os.path.join(ROOT, "seeded", sid)
     os.makedirs(dst, exist_ok=True)
+    old = os.path.join(dst, "meta.json")
+    if os.path.exists(old):
+        try:
+            om = json.load(open(old))
+            meta["history"] = om.get("history", []) + [{"date": om.get("date"), "verif_commit": om.get("verif_commit"), "checks": {
+                c: {k: r.get(k) for k in ("caught", "concrete_input")} for c, r in om.get("checks", {}).items()}}]
+        except Exception:
+            pass
+    meta["verif_commit"] = sh("git -C %s rev-parse --short HEAD" % ROOT)[1].strip()
     for f in ("patch.diff", "demo.py", "notes.md"):
         if os.path.exists(os.path.join(src, f)):
             shutil.copy(os.path.join(src, f), os.path.join(dst, f))
